@@ -320,6 +320,7 @@ class MonSim(ciw.Simulation):
     _tie_policy = 'native'
     _tie_rng = None
     _keep_snaps = True
+    _pop_cap = 400
 
     def _scripted_choice(self, n):
         """'script' policy: the k-th tie situation of the run takes the k-th entry of the script (0 beyond its end); the numbers of
@@ -371,6 +372,8 @@ class MonSim(ciw.Simulation):
         self._nev += 1
         if self._nev > self._cap:
             raise EventCap()
+        if self._nev % 64 == 0 and sum(n_.number_of_individuals for n_ in self.transitive_nodes) > self._pop_cap:
+            raise EventCap()     # an overloaded network only grows: stop (like the event cap) before snapshots become quadratic
         t = self.current_time
         sched = nd.next_event_date
         nid = getattr(nd, 'id_number', 0)
